@@ -13,7 +13,7 @@ from pathlib import Path
 
 import pathspec
 
-from flowmark.file_resolver.gitignore import load_gitignore, load_tool_ignore
+from flowmark.file_resolver.gitignore import find_tool_ignore, load_gitignore, load_tool_ignore
 from flowmark.file_resolver.types import FileResolverConfig
 
 # Characters that indicate a path is a glob pattern rather than a literal path.
@@ -37,7 +37,8 @@ class FileResolver:
         self._include_spec: pathspec.PathSpec = pathspec.PathSpec.from_lines(
             "gitignore", config.effective_include
         )
-        self._tool_ignore_cache: dict[Path, pathspec.PathSpec | None] = {}
+        # Tool ignore file per start directory: (directory holding the file, compiled spec).
+        self._tool_ignore_cache: dict[Path, tuple[Path, pathspec.PathSpec] | None] = {}
         # Cache gitignore specs per directory to avoid re-reading from disk.
         self._gitignore_cache: dict[Path, pathspec.PathSpec | None] = {}
 
@@ -106,6 +107,10 @@ class FileResolver:
             current = Path(dirpath)
             rel_to_root = current.relative_to(root)
 
+            # Path of this directory relative to the tool ignore file (gitignore rules
+            # are relative to the directory that holds the ignore file).
+            ignore_prefix = self._tool_ignore_prefix(current, tool_ignore)
+
             # Prune excluded directories in-place (prevents descent)
             dirnames[:] = [
                 d
@@ -130,7 +135,7 @@ class FileResolver:
                     continue
                 if any(spec.match_file(filename) for spec in gitignore_specs):
                     continue
-                if tool_ignore and tool_ignore.match_file(filename):
+                if tool_ignore and tool_ignore[1].match_file(ignore_prefix + filename):
                     continue
                 yield filepath
 
@@ -139,7 +144,7 @@ class FileResolver:
         dirname: str,
         rel_path: Path,
         current_dir: Path,
-        tool_ignore: pathspec.PathSpec | None,
+        tool_ignore: tuple[Path, pathspec.PathSpec] | None,
         walk_root: Path | None = None,
     ) -> bool:
         """Check if a directory should be pruned during traversal."""
@@ -157,12 +162,28 @@ class FileResolver:
                 if spec.match_file(dir_with_slash):
                     return True
 
-        if tool_ignore and tool_ignore.match_file(dir_with_slash):
-            return True
-        if tool_ignore and tool_ignore.match_file(rel_with_slash):
-            return True
+        if tool_ignore:
+            ignore_prefix = self._tool_ignore_prefix(current_dir, tool_ignore)
+            if tool_ignore[1].match_file(ignore_prefix + dir_with_slash):
+                return True
 
         return False
+
+    @staticmethod
+    def _tool_ignore_prefix(
+        directory: Path, tool_ignore: tuple[Path, pathspec.PathSpec] | None
+    ) -> str:
+        """
+        Path of `directory` relative to the directory holding the tool ignore file,
+        with a trailing slash (empty for that directory itself or if not below it).
+        """
+        if tool_ignore is None:
+            return ""
+        try:
+            rel = directory.resolve().relative_to(tool_ignore[0])
+        except ValueError:
+            return ""
+        return "".join(part + "/" for part in rel.parts)
 
     def _expand_glob(self, pattern: str) -> Iterable[Path]:
         """Expand a glob pattern, then apply all filters."""
@@ -216,9 +237,14 @@ class FileResolver:
             current = current / next_part
         return specs
 
-    def _get_tool_ignore(self, start_dir: Path) -> pathspec.PathSpec | None:
-        """Lazily load tool-specific ignore file, cached per resolved start directory."""
+    def _get_tool_ignore(self, start_dir: Path) -> tuple[Path, pathspec.PathSpec] | None:
+        """
+        Lazily load tool-specific ignore file, cached per resolved start directory.
+        Returns the directory holding the file and its compiled spec.
+        """
         resolved = start_dir.resolve()
         if resolved not in self._tool_ignore_cache:
-            self._tool_ignore_cache[resolved] = load_tool_ignore(self._config.tool_name, start_dir)
+            found = find_tool_ignore(self._config.tool_name, start_dir)
+            spec = load_tool_ignore(self._config.tool_name, start_dir) if found else None
+            self._tool_ignore_cache[resolved] = (found.parent, spec) if found and spec else None
         return self._tool_ignore_cache[resolved]
